@@ -7,8 +7,13 @@ Mirrors, function by function:
                                                `semantic_tokens_to_lsp`
   crates/trust-lsp/src/handlers/sync.rs        `apply_content_changes`, `did_open`, `did_change`,
                                                `did_close` (text/version part)
-  crates/trust-lsp/src/state/documents.rs      `open_document`, `update_document`, `close_document`
-                                               (fields `content`, `version`, `is_open`)
+  crates/trust-lsp/src/state/documents.rs      `open_document`, `update_document`, `close_document`,
+                                               `index_document_impl`, `remove_document` (fields
+                                               `content`, `version`, `is_open`, and the text handed to
+                                               `project.set_source_text` for the document's key)
+  crates/trust-lsp/src/handlers/workspace.rs   `did_change_watched_files` (CREATED/CHANGED/DELETED of the
+                                               document's own file), the per-file step of
+                                               `index_workspace_root`
 
 A Rust `&str` is modelled as `List Char` (a sequence of Unicode scalar values, which is exactly what
 a valid `str` is); byte offsets are recovered with `utf8Len`, LSP columns with `utf16Len`.
@@ -152,18 +157,29 @@ def applyContentChanges (s : List Char) : List Change → Outcome
     | .ok s' => applyContentChanges s' cs
     | o => o
 
-/-- The fields of `Document` the property speaks about. -/
+/-- The fields of `Document` the property speaks about, and `analysed`: the text last handed to
+`project.set_source_text(key, ·)` for the document's key, i.e. what the analysis database reads
+(every answer is computed from it and mapped to positions through `text`). -/
 structure Doc where
   text : List Char
   version : Int
   isOpen : Bool
+  analysed : List Char
 deriving Repr, DecidableEq
 
-/-- Notifications of one document. -/
+/-- Notifications that concern one document (one URI, backed by one file). -/
 inductive Event where
   | didOpen (version : Int) (text : List Char)
   | didChange (version : Int) (changes : List Change)
   | didClose
+  /-- `textDocument/didSave`: only re-publishes diagnostics. -/
+  | didSave
+  /-- `workspace/didChangeWatchedFiles` CREATED or CHANGED for the document's file, or the
+  per-file step of a workspace indexing pass: `disk` is what `read_to_string` returns
+  (`none` = unreadable, the event is skipped). -/
+  | watchedChanged (disk : Option (List Char))
+  /-- `workspace/didChangeWatchedFiles` DELETED for the document's file. -/
+  | watchedDeleted
 deriving Repr, DecidableEq
 
 /-- `did_open` / `did_change` / `did_close` on the entry of one URI in `ServerState.documents`
@@ -171,16 +187,29 @@ deriving Repr, DecidableEq
 unknown document ⇒ nothing; `apply_content_changes` = `None` ⇒ nothing; a panic unwinds the
 handler before `update_document`, so nothing either. -/
 def step (d : Option Doc) : Event → Option Doc
-  | .didOpen v t => some { text := t, version := v, isOpen := true }
+  | .didOpen v t => some { text := t, version := v, isOpen := true, analysed := t }
   | .didChange v cs =>
     if cs.isEmpty then d
     else match d with
       | none => none
       | some doc =>
         match applyContentChanges doc.text cs with
-        | .ok t => some { text := t, version := v, isOpen := true }
+        | .ok t => some { text := t, version := v, isOpen := true, analysed := t }
         | _ => some doc
   | .didClose => d.map fun doc => { doc with isOpen := false }
+  | .didSave => d
+  -- `index_document_impl`: a closed document with identical content, or an open document ⇒ `None`
+  -- before anything is touched; otherwise `set_source_text` and a closed entry with version 0
+  | .watchedChanged none => d
+  | .watchedChanged (some disk) =>
+    match d with
+    | some doc =>
+      if doc.isOpen then some doc
+      else if doc.text = disk then some doc
+      else some { text := disk, version := 0, isOpen := false, analysed := disk }
+    | none => some { text := disk, version := 0, isOpen := false, analysed := disk }
+  -- `remove_document`: no `is_open` guard (known finding C14-deleted-event-drops-open-document)
+  | .watchedDeleted => none
 
 def run (d : Option Doc) : List Event → Option Doc
   | [] => d
@@ -294,10 +323,17 @@ inductive Event where
   | didOpen (version : Int) (text : List Nat)
   | didChange (version : Int) (changes : List Change)
   | didClose
+  | didSave
+  /-- the file of the document was created / rewritten on disk (by anybody), or indexed -/
+  | watchedChanged
+  /-- the file of the document was deleted on disk -/
+  | watchedDeleted
 deriving Repr, DecidableEq
 
-/-- Editor-side protocol: open only when closed, change/close only when open, a change
-notification carries at least one change.  Outer `none` = not a history an editor produces. -/
+/-- Editor-side protocol: open only when closed, change/close/save only when open, a change
+notification carries at least one change.  What happens to the file on disk never touches the
+editor's buffer: an open document is owned by the editor (LSP 3.17, "Text Document
+Synchronization").  Outer `none` = not a history an editor produces. -/
 def step (d : Option Doc) : Event → Option (Option Doc)
   | .didOpen v t =>
     match d with
@@ -313,6 +349,12 @@ def step (d : Option Doc) : Event → Option (Option Doc)
     match d with
     | none => none
     | some _ => some none
+  | .didSave =>
+    match d with
+    | none => none
+    | some doc => some (some doc)
+  | .watchedChanged => some d
+  | .watchedDeleted => some d
 
 def run (d : Option Doc) : List Event → Option (Option Doc)
   | [] => some d
@@ -321,15 +363,18 @@ def run (d : Option Doc) : List Event → Option (Option Doc)
     | some d' => run d' es
     | none => none
 
-/-- `lfChanges` for a change notification; other events need no guard. -/
+/-- The two guards of `c14_history`, per event: `lfChanges` for a change notification (known
+finding C14-lone-cr), and no DELETED file event while the editor has the document open (known
+finding C14-deleted-event-drops-open-document).  Other events need no guard. -/
 def lfEvent (d : Option Doc) : Event → Bool
   | .didChange _ cs =>
     match d with
     | some doc => lfChanges doc.units cs
     | none => true
+  | .watchedDeleted => d.isNone
   | _ => true
 
-/-- Guard of `c14_history`: `lfChanges` for every change notification of the history. -/
+/-- Guard of `c14_history`: `lfEvent` for every event of the history. -/
 def lfHistory (d : Option Doc) : List Event → Bool
   | [] => true
   | e :: es =>
@@ -350,6 +395,9 @@ def encodeEvent : Impl.Event → Spec.Event
   | .didOpen v t => .didOpen v (encode16 t)
   | .didChange v cs => .didChange v (cs.map encodeChange)
   | .didClose => .didClose
+  | .didSave => .didSave
+  | .watchedChanged _ => .watchedChanged
+  | .watchedDeleted => .watchedDeleted
 
 /-- The byte offset `len8 pre` of `pre ++ post` lies between the `\r` and the `\n` of a `\r\n`
 line end — the only character boundary that is not a position of the editor. -/
@@ -357,11 +405,13 @@ def splitsCrlf (pre post : List Char) : Bool :=
   pre.getLast? == some '\r' && post.head? == some '\n'
 
 /-- The refinement relation of `c14_history`: the server's entry for the document agrees with the
-editor's copy — same text (as UTF-16 units), same version, open; a document the editor has closed
-(or never opened) is not open on the server. -/
+editor's copy — same text (as UTF-16 units), same version, open, and the analysis database reads
+that same text; a document the editor has closed (or never opened) is not open on the server
+(it may be tracked as a closed document holding the file's text). -/
 def Agree (srv : Option Impl.Doc) (ed : Option Spec.Doc) : Prop :=
   match ed with
-  | some e => ∃ d, srv = some d ∧ encode16 d.text = e.units ∧ d.version = e.version ∧ d.isOpen = true
+  | some e => ∃ d, srv = some d ∧ encode16 d.text = e.units ∧ d.version = e.version ∧
+      d.isOpen = true ∧ d.analysed = d.text
   | none => ∀ d, srv = some d → d.isOpen = false
 
 end TrustVerif.C14
